@@ -22,6 +22,9 @@ func c10Tracks(layout string) []vfyh.Track {
 			{Media: "video", Timescale: 1000, Chunks: [][]int{{2, 1}, {1, 1}}, Durs: []uint32{40}, Sync: []uint32{1, 3}},
 			{Media: "audio", Timescale: 48000, Chunks: [][]int{{1, 1, 1}, {1, 1}, {1}}, Durs: []uint32{1024}},
 		}
+	case "vh":
+		// a very fine media timescale: decode times pass 2^32 ticks within one stts run
+		return []vfyh.Track{{Media: "video", Timescale: 3600000000, Chunks: [][]int{{2, 1}, {1, 1}, {1, 2}}, Durs: []uint32{1500000000}, Sync: []uint32{1, 3, 5}}}
 	case "a":
 		return []vfyh.Track{{Media: "audio", Timescale: 48000, Chunks: [][]int{{1, 2}, {2}, {1, 1}}, Durs: []uint32{1024}}}
 	case "vav":
@@ -109,7 +112,11 @@ func VerifC10(layout string, durationMS int, co64 bool, lazy bool) {
 			for i := 0; i < n; i++ {
 				tot += uint64(t.Durs[i%len(t.Durs)])
 			}
-			if endTime*uint64(t.Timescale)/uint64(rt.Timescale) >= tot && &t != &rt {
+			tEnd := endTime
+			if t.Timescale != rt.Timescale {
+				tEnd = endTime * uint64(t.Timescale) / uint64(rt.Timescale)
+			}
+			if tEnd >= tot && &t != &rt {
 				shorter = true
 			}
 		}
@@ -144,7 +151,10 @@ func VerifC10(layout string, durationMS int, co64 bool, lazy bool) {
 			n += len(c)
 		}
 		// k = number of this track's samples that start before the end time
-		trackEnd := endTime * uint64(t.Timescale) / uint64(rt.Timescale)
+		trackEnd := endTime
+		if t.Timescale != rt.Timescale { // (the product would overflow 64 bits for the fine-timescale layout)
+			trackEnd = endTime * uint64(t.Timescale) / uint64(rt.Timescale)
+		}
 		k := 0
 		st := uint64(0)
 		for i := 0; i < n; i++ {
